@@ -6,6 +6,7 @@ Sections (cfg `kind=`):
   cs     `req m= path= query= uri= hdr= fp= sec= plain= sig= dt= sk= ak= body= reply= …`
            =>  `now p q cl uripq rsa sigv aes` (environment/oracles), `ran status seen resp`
   crypt  `req body= reply= [cl=]`  =>  `cl aes`, `ran status seen resp`
+  tp     `parse s= p= auth= now= clk=`  =>  token facts, `err valid hist` (TokenParser.ParseToken + history counters)
   text   `ph text=` | `b64d text=` | `b64e data=` | `hmac key= text=`
 All free text is hex; `-` is the empty string.
 -/
@@ -166,6 +167,85 @@ def runJwtLine (r : Report) (sec : Nat) (st : JwtSt) (l : Line) : Report × JwtS
         (r, { st with hist := res.1, clock := clock })
       | _, _ => fail "unparsable-observation"
     | _, _ => fail "bad-op"
+  | _ => fail "bad-op"
+
+/-! ### TokenParser (rest/token): ParseToken with per-call secret pairs, history counters observed -/
+
+structure TpSt where
+  hist  : Hist
+  clock : Int
+
+/-- `hexsecret:count,…` (sorted by the harness) -/
+def parseHist (s : String) : Option (List (String × Nat)) :=
+  if s = "-" then some [] else
+  (s.splitOn ",").mapM fun p =>
+    match p.splitOn ":" with
+    | [k, n] => do pure ((← unhexStr k), (← n.toNat?))
+    | _ => none
+
+def showHist (l : List (String × Nat)) : String :=
+  if l.isEmpty then "-" else ",".intercalate (l.map fun (k, n) => s!"{toHex (asciiBytes k)}:{n}")
+
+def runTpLine (r : Report) (sec : Nat) (st : TpSt) (l : Line) : Report × TpSt :=
+  let fail (msg : String) := (r.mismatch sec l.idx msg (joinSp l.op), st)
+  match l.op with
+  | "parse" :: args =>
+    let o := l.obs
+    let parsed : Option (String × String × Int × Int × TokenFacts String × Bool × Bool × List (String × Nat)) := do
+      let s ← unhexStr (← kv? args "s")
+      let p ← unhexStr (← kv? args "p")
+      let now ← (← kv? args "now").toInt?
+      let clk ← (← kv? args "clk").toInt?
+      let alg ← kv? o "alg"
+      let algS ← if alg = "-" then some none else (unhexStr alg).map some
+      let sigcur := kv? o "sigcur" = some "1"
+      let sigprev := kv? o "sigprev" = some "1"
+      let f : TokenFacts String := {
+        present := kv? o "present" = some "1", segs := (← (← kv? o "segs").toNat?),
+        hdrOk := kv? o "hdr" = some "1", clmOk := kv? o "clm" = some "1", alg := algS,
+        sigOk := fun x => (x = s && sigcur) || (x = p && p ≠ "" && sigprev),
+        exp := (← parseTimeClaim (← kv? o "exp")), nbf := (← parseTimeClaim (← kv? o "nbf")),
+        iat := (← parseTimeClaim (← kv? o "iat")), claims := [] }
+      let err ← kv? o "err"
+      let valid ← kv? o "valid"
+      let hist ← parseHist (← kv? o "hist")
+      pure (s, p, now, clk, f, err ≠ "0", valid = "1", hist)
+    match parsed with
+    | some (s, p, now, clk, f, err, valid, hist) =>
+      let clock := st.clock + clk
+      let verify := jwtVerify f now
+      let res := parseToken verify st.hist s p clock
+      let r := { r with ops := r.ops + 1 }
+      let fs := firstSecond st.hist s p
+      let r := r.addCover (
+        if p.length = 0 then (if res.2.isErr then "tp-single-secret-failed" else "tp-single-secret-ok")
+        else if !(verify fs.1).isErr then (if fs.1 = s then "tp-first-attempt-ok-current" else "tp-first-attempt-ok-previous")
+        else if !(verify fs.2).isErr then (if fs.2 = s then "tp-second-attempt-ok-current" else "tp-second-attempt-ok-previous")
+        else "tp-both-attempts-failed")
+      let r := if p.length > 0 then r.addCover (
+        if st.hist.count s > st.hist.count p then "tp-current-leads" else if st.hist.count s = st.hist.count p then
+          (if st.hist.count s = 0 then "tp-counts-both-zero" else "tp-counts-tie") else "tp-previous-leads") else r
+      let r := if s = p then r.addCover "tp-same-secret-twice" else r
+      let r := if p.length > 0 ∧ !res.2.isErr then
+          (if st.hist.resetTime + st.hist.resetDuration < clock then
+             r.addCover (if st.hist.counts.isEmpty then "tp-history-reset-empty" else "tp-history-reset-cleared")
+           else if st.hist.resetTime + st.hist.resetDuration = clock then r.addCover "tp-history-reset-boundary-not-yet"
+           else r)
+        else r
+      let r := if res.1.counts.length > 2 then r.addCover "tp-history-more-than-two-secrets" else r
+      let modelValid := match res.2 with | .tok v _ => v | .err => false
+      let same := res.1.counts.length = hist.length ∧ hist.all (fun kn => res.1.count kn.1 = kn.2)
+      let r := if res.2.isErr ≠ err ∨ modelValid ≠ valid ∨ ¬ same then
+          r.mismatch sec l.idx s!"err={res.2.isErr} valid={modelValid} hist={showHist res.1.counts}"
+            s!"err={err} valid={valid} hist={showHist hist}"
+        else r
+      -- the property: ParseToken succeeds only for a credential that is valid under one of the two secrets given
+      let r := if !err ∧ !credentialOk f now s p then
+          r.violation sec l.idx "tp: ParseToken accepted a token that is not valid under the current or the previous secret"
+        else if !err ∧ !valid then r.violation sec l.idx "tp: ParseToken returned a token that is not marked valid without an error"
+        else r
+      (r, { hist := res.1, clock := clock })
+    | none => fail "unparsable-line"
   | _ => fail "bad-op"
 
 /-! ### content security / cryption -/
@@ -417,6 +497,11 @@ def runSection (r : Report) (s : Section) : Report :=
     match (kv? s.cfg "key").bind unhex with
     | some key => s.lines.foldl (fun acc l => runCryptLine acc s.idx key (kvInt s.cfg "limit" 1048576) l) r
     | none => r.mismatch s.idx 0 "bad-section" (joinSp s.cfg)
+  | some "tp" =>
+    let t0 := kvInt s.cfg "t0" 0
+    let rd := kvInt s.cfg "rd" 0
+    let h0 : Hist := if rd > 0 then { resetTime := t0, resetDuration := rd } else { resetTime := t0 }
+    (s.lines.foldl (fun (acc : Report × TpSt) l => runTpLine acc.1 s.idx acc.2 l) (r, { hist := h0, clock := t0 })).1
   | some "text" => s.lines.foldl (fun acc l => runTextLine acc s.idx l) r
   | _ => r.mismatch s.idx 0 "bad-section" (joinSp s.cfg)
 
